@@ -79,6 +79,7 @@ def check(rep, model, tier):
     opt_forward(rep, model)
     window_tiling(rep, model)
     crossing_total(rep, model)
+    py_division(rep, model)
     common.roview(rep, model, PIPELINE)
     call_bind(rep, model)
     # shared clauses
@@ -105,7 +106,7 @@ def check(rep, model, tier):
                           found='; '.join(f'{c}' + (f' [via {v}]' if v else '') for _, c, v in hits[:3]) + ': a later call with the same dictionary runs with different options')
         else:
             rep.ok('OPTIONS-STABLE', name, f'{fn.path}:{fn.node.lineno} {name}', found='no write through an option dictionary')
-    rep.rules = {k: v for k, v in rep.rules.items() if k in ('DOC-DEFAULT', 'ROW-OFFSETS', 'PAIRING', 'OPT-EXCL', 'OPT-FORWARD', 'WINDOW-TILING', 'CROSSING-TOTAL', 'EFF-ROVIEW', 'CALL-BIND', 'MID-LOCAL', 'BOUNDARY', 'CROSSING')}
+    rep.rules = {k: v for k, v in rep.rules.items() if k in ('DOC-DEFAULT', 'ROW-OFFSETS', 'PAIRING', 'OPT-EXCL', 'OPT-FORWARD', 'WINDOW-TILING', 'CROSSING-TOTAL', 'PY-DIVISION', 'EFF-ROVIEW', 'CALL-BIND', 'MID-LOCAL', 'BOUNDARY', 'CROSSING')}
     rep.rule('OPTIONS-STABLE', 'compute_features / compute_shape_features never write to the find_extrema_kwargs dictionary they are given (the one carrying boundary), so the '
                                'requested boundary holds on every call that reuses it (shared with C15)')
     rep.floors = {k: v for k, v in rep.floors.items() if k in ('call sites bound',)}
@@ -265,8 +266,7 @@ def crossing_total(rep, model):
     f = model.find('_find_flank_midpoints')
     site = f'{f.path}:{f.node.lineno} _find_flank_midpoints'
     for fl in ('rise', 'decay'):
-        b = {f.params[0]: ('param', 'sig'), f.params[1]: C(fl), f.params[2]: ('param', 'n_flanks'), f.params[3]: ('param', 'start'), f.params[4]: ('param', 'end'),
-             f.params[5]: ('param', 'bias')}
+        b = {p_: v_ for p_, v_ in zip(f.params, (('param', 'sig'), C(fl), ('param', 'n_flanks'), ('param', 'start'), ('param', 'end'), ('param', 'bias')))}
         impl, ctx = E.run(model, f.qual, dict(b))
         sites, bad = [], []
 
@@ -310,6 +310,30 @@ def crossing_total(rep, model):
             rep.ok('CROSSING-TOTAL', fl, site, found=f'{len(sites)} reduction(s) over crossing sets, each behind a fallback / emptiness test')
         else:
             rep.ok('CROSSING-TOTAL', fl, site, found='no reduction over a recognisable crossing set: not decided here (conformance of the search is C03 MID-DEF)', nontrivial=False)
+
+
+def py_division(rep, model):
+    """ratios of flank voltages / periods are taken on numpy values under np.errstate, so a zero denominator (a flat cycle, an exact tie) gives nan / inf and a row; the
+    same division on python scalars pulled out of the arrays raises ZeroDivisionError and no table is returned"""
+    import ast
+    rep.rule('PY-DIVISION', 'no function reachable from compute_features divides by a python scalar taken out of an array (.tolist(), .item(), float(x) and builtin min / max of '
+                            'those) outside a handler for ZeroDivisionError: flat cycles and exact voltage ties must yield nan / inf, not an exception')
+    n = 0
+    bad = 0
+    for q in sorted(common.reachable(model, ['compute_features'])):
+        f = model.funcs[q]
+        n += 1
+        for ln, txt in common.python_divisions(f.node):
+            bad += 1
+            rep.violation('PY-DIVISION', f'{f.name}:{txt[:40]}', f'{f.path}:{ln} {f.name}', expected='division on numpy values (nan / inf for a zero denominator)',
+                          found=f'{txt}: the denominator is a python number; a zero raises ZeroDivisionError and compute_features returns no table')
+    ex = ast.parse('def f(df):\n    a = df["x"].tolist()\n    b = df["y"].values\n    return [min(p, q) / max(p, q) for p, q in zip(a, a[1:])], b[0] / b[1]\n').body[0]
+    got = common.python_divisions(ex)
+    if len(got) == 1 and 'max(p, q)' in got[0][1]:
+        if not bad:
+            rep.ok('PY-DIVISION', 'package', '-', found=f'{n} functions reachable from compute_features scanned; embedded example fires on the python-scalar division only')
+    else:
+        rep.unresolved('PY-DIVISION', 'embedded example', 'sa/rules/c01.py', f'the taint query no longer behaves as expected: {got}')
 
 
 def opt_forward(rep, model):
